@@ -204,22 +204,22 @@ theorem program_writer_shape (c : Cfg) (rq : Req) (hs : renameOnlyStrat c.strat)
     refine ⟨?_, ?_, ?_, ?_⟩
     · intro a ha
       simp only [program, hk, List.mem_append, List.mem_cons, List.not_mem_nil, or_false] at ha
-      rcases ha with (((rfl | h) | rfl) | h) | h
+      rcases ha with (((rfl | rfl) | h) | h) | h
+      · rfl
       · rfl
       · exact hset _ a h
-      · rfl
       · exact hset _ a h
       · exact hpub a h
     · simp only [program, hk, List.filter_append, hsetf, List.length_append, hpubf]; simp [Act.isRPub]
     · intro pre post h
       simp only [program, hk] at h
-      have : Act.cstat ∈ [Act.opentmp] ++ setProg (rq.w.attrs.filter (·.1.isHdr)) ++ [Act.wstat] ++
+      have : Act.cstat ∈ [Act.opentmp, Act.wstat] ++ setProg (rq.w.attrs.filter (·.1.isHdr)) ++
           setProg (rq.w.attrs.filter (!·.1.isHdr)) ++ publishProg c.strat := by rw [h]; simp
       simp only [List.mem_append, List.mem_cons, List.not_mem_nil, or_false] at this
       rcases this with (((h1 | h1) | h1) | h1) | h1
       · cases h1
-      · exact absurd h1 (hsetc _)
       · cases h1
+      · exact absurd h1 (hsetc _)
       · exact absurd h1 (hsetc _)
       · exact absurd h1 hpubc
     · refine ⟨fun _ => rfl, ?_⟩
